@@ -135,7 +135,7 @@ class Dtype:
         self._read_fn = scaled_read_fn(self.unscaled_read_fn, self._scale)
 
     @classmethod
-    @functools.lru_cache(CACHE_SIZE)
+    @functools.lru_cache(CACHE_SIZE, typed=True)
     def _new_from_token(cls, token: str, scale: Union[None, float, int] = None) -> Dtype:
         token = ''.join(token.split())
         return dtype_register.get_dtype(*utils.parse_name_length_token(token), scale=scale)
@@ -144,7 +144,7 @@ class Dtype:
         return hash((self._name, self._length))
 
     @classmethod
-    @functools.lru_cache(CACHE_SIZE)
+    @functools.lru_cache(CACHE_SIZE, typed=True)
     def _create(cls, definition: DtypeDefinition, length: Optional[int], scale: Union[None, float, int]) -> Dtype:
         x = super().__new__(cls)
         x._name = definition.name
